@@ -87,6 +87,7 @@ class Out:
         self.worst = None
         self.grids = 0
         self.skipped_inverse = 0
+        self.skipped_pairs = 0
 
 
 # ---------------------------------------------------------------------------------------------
@@ -197,13 +198,24 @@ def judge_grid(out, pre, esfx, trees, wtree, decl, tenv, xs, ws, rdom, got, exc,
     kb = f"transform_1d_grid:{pre}{esfx}"
     out.grids += 1
     if exc is not None:
-        out.viol.append((f"{kb}:exception", f"transform_1d_grid raised {type(exc).__name__}: {exc} for an admissible pair", case))
+        what = "exception"
+        if trim and expect_dom is None and isinstance(exc, ValueError) and "domain" in str(exc):
+            # a finite node image larger than the number that stands for infinity?
+            big = [ev(trees["F"], dict(tenv, x=rtx._mpf(x))) for x in xs]
+            if any(v is not None and not mp.isinf(v) and abs(v) > trim_value for v in big):
+                what = "node-beyond-trimmed-infinity"
+        out.viol.append((f"{kb}:{what}", f"transform_1d_grid raised {type(exc).__name__}: {exc} for an admissible pair", case))
         return
     if not isinstance(got, OneDGrid) or got.size != len(xs):
         out.viol.append((f"{kb}:type", f"result is {type(got).__name__} of size {getattr(got, 'size', None)}, expected OneDGrid of size {len(xs)}", case))
         return
-    pts = np.asarray(got.points, dtype=float)
-    wts = np.asarray(got.weights, dtype=float)
+    try:
+        pts = np.asarray(got.points, dtype=float)
+        wts = np.asarray(got.weights, dtype=float)
+        assert pts.shape == (len(xs),) and wts.shape == (len(xs),)
+    except Exception:  # noqa: BLE001
+        out.viol.append((f"{kb}:type", "points / weights of the result are not float arrays of the rule's size", case))
+        return
     n = len(xs)
     # declared singular ends: a reference end point whose codomain end is infinite (forward role only)
     sing_at = {}
@@ -221,7 +233,7 @@ def judge_grid(out, pre, esfx, trees, wtree, decl, tenv, xs, ws, rdom, got, exc,
     accepted = True
     for i in range(n):
         te = dict(tenv, x=rtx._mpf(xs[i]), w=rtx._mpf(ws[i]))
-        out.keys.add((pre, "node", case.get("tag"), i))
+        out.keys.add((pre + esfx, "node", case.get("tag"), case.get("trim_inf"), i))
         if float(xs[i]) in sing_at:
             # singular end node: the image is +-inf, represented by +-trim when trimming is on
             singular[i] = True
@@ -245,8 +257,11 @@ def judge_grid(out, pre, esfx, trees, wtree, decl, tenv, xs, ws, rdom, got, exc,
         if singular[i]:
             continue
         te = dict(tenv, x=rtx._mpf(xs[i]), w=rtx._mpf(ws[i]))
+        wv = ev(wtree, te)
+        if wv is None or mp.isinf(wv):
+            continue        # infinite Jacobian at a domain end (e.g. Knowles with k < 1 at x = -1)
         obs = abs(wts[i]) if ws[i] >= 0 else -abs(wts[i])
-        out.keys.add((pre, "weight", case.get("tag"), i))
+        out.keys.add((pre + esfx, "weight", case.get("tag"), case.get("trim_inf"), i))
         t = _cmp(out, f"{kb}:weights", f"|weight {i}| for x={xs[i]!r}, w={ws[i]!r}", obs, wtree, te, "x", dict(case, index=i))
         if t is None:
             accepted = False
@@ -255,7 +270,7 @@ def judge_grid(out, pre, esfx, trees, wtree, decl, tenv, xs, ws, rdom, got, exc,
     # domain
     dom = got.domain
     out.n += 1
-    out.keys.add((pre, "domain", case.get("tag")))
+    out.keys.add((pre + esfx, "domain", case.get("tag"), case.get("trim_inf")))
     try:
         d0, d1 = float(dom[0]), float(dom[1])
         dom_ok = len(dom) == 2
@@ -306,11 +321,11 @@ def judge_grid(out, pre, esfx, trees, wtree, decl, tenv, xs, ws, rdom, got, exc,
     # weights were accepted): sum_new g(r_j) w_j = sum_old g(F(x_i)) |F'(x_i)| w_i.  The tolerance is
     # what the accepted node / weight tolerances allow (|g'| <= 4 on r >= -1/2).
     if accepted and not singular.any() and np.all(np.isfinite(pts)) and np.all(np.isfinite(wts)) and np.all(np.asarray(ws) >= 0) \
-            and pts.min() >= -0.5:
+            and np.any(np.asarray(ws) > 0) and pts.min() >= -0.5:
         gv = positive_integrand(pts)
         val, exc = rtx.call(got.integrate, gv)
         out.n += 1
-        out.keys.add((pre, "sum", case.get("tag")))
+        out.keys.add((pre + esfx, "sum", case.get("tag"), case.get("trim_inf")))
         if exc is not None:
             out.viol.append((f"{kb}:integrate:exception", f"integrate raised {type(exc).__name__}: {exc}", case))
             return
@@ -357,6 +372,12 @@ def run_pair(out, inst, fenv, expo, rule_name, make_rule, tag, trim_value, direc
         ws = np.asarray(rule.weights, dtype=float).copy()
         rdom = tuple(float(v) for v in rule.domain)
         tenv, full = _tenv(inst, fenv, expo, float(xs.max()))
+        # precondition of Transform1D: every node inside the domain of use (a library rule may put a
+        # node one ulp beyond -1 or 1)
+        ulo, uhi = (ev(t, tenv) for t in inst.decl["use"])
+        if not (rtx._mpf(float(xs.min())) >= ulo and rtx._mpf(float(xs.max())) <= uhi):
+            out.skipped_pairs += 1
+            return
         case = {"class": lbl, "params": fenv, "exponent": expo, "trim_inf": trim, "rule": rule_name, "n": int(rule.size), "tag": tag}
         tf, exc = rtx.call(rtx.make_tf, inst, fenv, expo, trim)
         if exc is not None:
@@ -365,16 +386,19 @@ def run_pair(out, inst, fenv, expo, rule_name, make_rule, tag, trim_value, direc
         got, exc = rtx.call(tf.transform_1d_grid, rule)
         judge_grid(out, lbl, esfx, inst.trees, inst.wtree, inst.decl, tenv, xs, ws, rdom, got, exc, trim, trim_value,
                    direction, case, tlc_grid)
-        if len(out.samples) < 1 and exc is None:
-            out.samples.append(dict(case, points=np.asarray(got.points)[:3].tolist(), weights=np.asarray(got.weights)[:3].tolist(), domain=[float(v) for v in got.domain]))
+        try:
+            p1 = np.asarray(got.points, float)
+            w1 = np.abs(np.asarray(got.weights, float))
+            d1 = tuple(float(v) for v in got.domain)
+        except Exception:  # noqa: BLE001  (already reported by judge_grid)
+            continue
+        if len(out.samples) < 1:
+            out.samples.append(dict(case, points=p1[:3].tolist(), weights=np.asarray(got.weights)[:3].tolist(), domain=list(d1)))
         # role swap: InverseRTransform(tf) applied to the transformed grid returns to the x side.
         # Only for the default trim setting, finite nodes and a nan-free domain; the input weights are
         # made non-negative so that the two steps are judged separately.
-        if not inverse or exc is not None or trim is False:
+        if not inverse or trim is False:
             continue
-        p1 = np.asarray(got.points, float)
-        w1 = np.abs(np.asarray(got.weights, float))
-        d1 = tuple(float(v) for v in got.domain)
         if not (np.all(np.isfinite(p1)) and np.all(np.isfinite(w1)) and not any(math.isnan(v) for v in d1)) or np.any(p1 >= 1e15):
             continue
         if not (p1.min() > d1[0] and p1.max() < d1[1] and np.all(w1 > 0)):
@@ -467,6 +491,16 @@ def draw_env(rng, inst, rule):
     return None
 
 
+def map_direction(inst, tenv):
+    """Sign of D(F) (spec tree) at an interior point of the domain of use."""
+    lo, hi = (ev(t, tenv) for t in inst.decl["use"])
+    x = lo + 1 if mp.isinf(hi) else lo + (hi - lo) * mp.mpf(37) / 100
+    dv = ev(inst.trees["d1"], dict(tenv, x=x))
+    if dv is None or dv == 0:
+        return 0
+    return 1 if dv > 0 else -1
+
+
 def job_random(arg):
     j, ridx, seed = arg
     em, rules = _G["em"], _G["other"]
@@ -478,14 +512,10 @@ def job_random(arg):
     if d is None:
         return out
     fenv, expo = d
-    # direction of the class: sign of D(F) at the first interior node (spec tree)
     tenv, _ = _tenv(inst, fenv, expo, float(np.max(rule.points)))
-    xs = np.asarray(rule.points, float)
-    mid = xs[len(xs) // 2]
-    dv = ev(inst.trees["d1"], dict(tenv, x=rtx._mpf(mid)))
-    if dv is None or dv == 0:
+    direction = map_direction(inst, tenv)
+    if direction == 0:
         return out
-    direction = 1 if dv > 0 else -1
     import grid.onedgrid as od
     C = getattr(od, name)
     run_pair(out, inst, fenv, expo, name, lambda: C(n), f"random:{seed}", em.trim, direction, None, inverse=(seed % 2 == 0))
@@ -583,6 +613,7 @@ def check(rep: Report, tier: str, modelled) -> None:
     rep.set("grids_replayed", sum(o.grids for o in outs))
     rep.set("random_pairs", len(rjobs))
     rep.set("inverse_round_trips_skipped_precondition", sum(o.skipped_inverse for o in outs))
+    rep.set("pairs_skipped_node_outside_domain", sum(o.skipped_pairs for o in outs))
     rep.set("library_rules_used", sorted({name for name, _, _ in other}))
     rep.set("float_observations", n)
     rep.set("max_err_over_tolerance_accepted", max([o.max_ratio for o in outs] + [0.0]))
@@ -625,8 +656,7 @@ def replay(path: str) -> int:
     fenv = {k: float(x) for k, x in c["params"].items()}
     rule = getattr(od, c["rule"])(c["n"])
     tenv, _ = _tenv(inst, fenv, expo, float(np.max(rule.points)))
-    dv = ev(inst.trees["d1"], dict(tenv, x=rtx._mpf(float(np.asarray(rule.points, float)[rule.size // 2]))))
-    run_pair(out, inst, fenv, expo, c["rule"], lambda: getattr(od, c["rule"])(c["n"]), "replay", em.trim, 1 if dv > 0 else -1)
+    run_pair(out, inst, fenv, expo, c["rule"], lambda: getattr(od, c["rule"])(c["n"]), "replay", em.trim, map_direction(inst, tenv))
     for k, what, _ in out.viol:
         print("replay:", k, what)
     return 1 if out.viol else 0
